@@ -12,10 +12,19 @@ from .report import Check
 PROPS = ['C%02d' % i for i in range(1, 21)]
 
 
-def run_property(prop, tier, root, rule_filter=None, write=True, quiet=False, selftest=True):
-    """Returns (exit_code, check).  0 ok, 1 violation, 2 analysis error."""
+_REPOS = {}
+
+
+def run_property(prop, tier, root, rule_filter=None, write=True, quiet=False, selftest=True, share=False):
+    """Returns (exit_code, check).  0 ok, 1 violation, 2 analysis error.  share=True (development runs of `all`
+    with --share) re-uses one program model for every property; registered commands always build their own."""
     try:
-        repo = Repo(root)
+        if share:
+            if root not in _REPOS:
+                _REPOS[root] = Repo(root)
+            repo = _REPOS[root]
+        else:
+            repo = Repo(root)
         mod = importlib.import_module('sa.rules.%s' % prop.lower())
         chk = Check(prop, tier, repo, root)
         rules = [(n, f) for n, f in mod.RULES if rule_filter is None or n.startswith(rule_filter)]
@@ -55,6 +64,7 @@ def main(argv=None):
     ap.add_argument('--no-write', action='store_true')
     ap.add_argument('--no-selftest', action='store_true')
     ap.add_argument('-v', '--verbose', action='store_true')
+    ap.add_argument('--share', action='store_true')
     a = ap.parse_args(argv)
     if a.prop == 'all':
         from .claims import CLAIMS
@@ -63,7 +73,7 @@ def main(argv=None):
         props = [a.prop.upper()]
     worst = 0
     for p in props:
-        code, chk = run_property(p, a.tier, a.root, a.rule, write=not a.no_write, selftest=not a.no_selftest)
+        code, chk = run_property(p, a.tier, a.root, a.rule, write=not a.no_write, selftest=not a.no_selftest, share=a.share)
         if a.verbose and chk is not None:
             for o in chk.obs:
                 print('  %s %-6s %s — %s%s' % ('ok ' if o.ok else 'BAD', o.rule, o.where, o.what, (' — ' + o.detail) if o.detail and not o.ok else ''))
